@@ -7,14 +7,15 @@ From Centro Require Import Model.VecC18 Model.MedianC18 Spec.SpecC18 Proofs.Medi
 Import ListNotations.
 
 (* the values of object l are untouched: same entry, whatever else changed (other objects' pixels,
-   labels, values, the image size, the two request lists) *)
+   labels, values, the image size, the two request lists, which
+   may repeat labels: C18's median_of_labels_correct_all needs no NoDup) *)
 Theorem median_independent (image : list Z) labels idxs image' labels' idxs' k k' l :
-  length image = length labels -> length image' = length labels' -> NoDup idxs -> NoDup idxs' ->
+  length image = length labels -> length image' = length labels' ->
   sel image labels l = sel image' labels' l ->
   nth_error idxs k = Some l -> nth_error idxs' k' = Some l ->
   nth_error (median_of_labels image labels idxs) k = nth_error (median_of_labels image' labels' idxs') k'.
 Proof.
-  intros L L' ND ND' Hs Hk Hk'. rewrite !median_of_labels_correct by assumption.
+  intros L L' Hs Hk Hk'. rewrite !median_of_labels_correct_all by assumption.
   unfold median_ref. rewrite !nth_error_map, Hk, Hk'. cbn [option_map]. rewrite Hs. reflexivity.
 Qed.
 
@@ -31,22 +32,21 @@ Proof.
 Qed.
 
 Theorem median_relabel (f : nat -> nat) (image : list Z) labels idxs :
-  (forall a b, f a = f b -> a = b) -> length image = length labels -> NoDup idxs ->
+  (forall a b, f a = f b -> a = b) -> length image = length labels ->
   median_of_labels image (map f labels) (map f idxs) = median_of_labels image labels idxs.
 Proof.
-  intros Inj L ND. rewrite !median_of_labels_correct; auto.
+  intros Inj L. rewrite !median_of_labels_correct_all; auto.
   - unfold median_ref. rewrite map_map. apply map_ext. intros l. rewrite sel_relabel by exact Inj. reflexivity.
   - rewrite map_length. exact L.
-  - apply Injective_map_NoDup; [exact Inj|exact ND].
 Qed.
 
 Theorem median_request (image : list Z) labels idxs :
-  length image = length labels -> NoDup idxs ->
+  length image = length labels ->
   median_of_labels image labels idxs = flat_map (fun l => median_of_labels image labels [l]) idxs.
 Proof.
-  intros L ND. rewrite median_of_labels_correct by assumption. unfold median_ref.
-  clear ND. induction idxs as [|i r IH]; cbn [map flat_map]; [reflexivity|].
-  rewrite (median_of_labels_correct image labels [i] L) by (constructor; [intros []|constructor]).
+  intros L. rewrite median_of_labels_correct_all by assumption. unfold median_ref.
+  induction idxs as [|i r IH]; cbn [map flat_map]; [reflexivity|].
+  rewrite (median_of_labels_correct_all image labels [i] L).
   unfold median_ref. cbn [map app]. rewrite IH. reflexivity.
 Qed.
 
